@@ -12,20 +12,39 @@ def isDirectiveOrDocStart : TokenType → Bool
   | .versionDirective .. | .tagDirective .. | .documentStart => true
   | _ => false
 
-/-- `parser_process_directives` (as in the pinned source: the table is rebuilt on every iteration). -/
-def processDirectives (fuel : Nat) (p : PState) (versionSeen : Bool) : Res PState :=
+/-- insert or replace a binding (`HashMap::insert` / `extend`) -/
+def tagsInsert (h pf : Str) : List (Str × Str) → List (Str × Str)
+  | [] => [(h, pf)]
+  | (k, v) :: r => if k = h then (h, pf) :: r else (k, v) :: tagsInsert h pf r
+
+/-- `self.tags.extend(tags)` -/
+def tagsExtend (old new : List (Str × Str)) : List (Str × Str) :=
+  new.foldl (fun acc kv => tagsInsert kv.1 kv.2 acc) old
+
+/-- the directive loop of `parser_process_directives`: `acc` collects this document's `%TAG`
+    declarations (a handle may be declared once; reserved directives — empty handle — declare
+    nothing) -/
+def directivesLoop (fuel : Nat) (p : PState) (versionSeen : Bool) (acc : List (Str × Str)) :
+    Res (PState × List (Str × Str)) :=
   match fuel with
-  | 0 => .ok p
+  | 0 => .ok (p, acc)
   | fuel + 1 => do
     let t ← peekTok p
     match t.ty with
     | .versionDirective _ _ =>
       if versionSeen then .err ⟨t.span.start, "duplicate version directive"⟩
-      else processDirectives fuel (skipTok { p with tags := [] }) true
+      else directivesLoop fuel (skipTok p) true acc
     | .tagDirective h pf =>
-      -- `tags` is a fresh map on each iteration, so `contains_key` never fires
-      processDirectives fuel (skipTok { p with tags := [(h, pf)] }) versionSeen
-    | _ => .ok p
+      if h = [] then directivesLoop fuel (skipTok p) versionSeen acc
+      else if (lookup h acc).isSome then
+        .err ⟨t.span.start, "the TAG directive must only be given at most once per handle in the same document"⟩
+      else directivesLoop fuel (skipTok p) versionSeen (acc ++ [(h, pf)])
+    | _ => .ok (p, acc)
+
+/-- `parser_process_directives` -/
+def processDirectives (fuel : Nat) (p : PState) (versionSeen : Bool) : Res PState := do
+  let (p, acc) ← directivesLoop fuel p versionSeen []
+  .ok { p with tags := tagsExtend p.tags acc }
 
 def explicitDocumentStart (p : PState) : Res Out := do
   let p ← processDirectives (p.toks.length + 1) p false
